@@ -23,7 +23,8 @@ namespace bits {
   struct vyukov_hash_map_trivial_key : vyukov_hash_map_common<Key> {
     template <class Cell>
     static bool compare_trivial_key(Cell& key_cell, const Key& key, hash_t /*hash*/) {
-      return key_cell.load(std::memory_order_relaxed) == key;
+      // acquire: see the comment on the release-stores of the key in do_extract/erase(iterator)
+      return key_cell.load(std::memory_order_acquire) == key;
     }
 
     template <class Accessor>
@@ -41,7 +42,8 @@ namespace bits {
   struct vyukov_hash_map_nontrivial_key : vyukov_hash_map_common<Key> {
     template <class Cell>
     static bool compare_trivial_key(Cell& key_cell, const Key& /*key*/, hash_t hash) {
-      return key_cell.load(std::memory_order_relaxed) == hash;
+      // acquire: see the comment on the release-stores of the key in do_extract/erase(iterator)
+      return key_cell.load(std::memory_order_acquire) == hash;
     }
 
     template <class Accessor>
